@@ -21,7 +21,7 @@ def make_plan(seed: int, tier: str, opts: dict) -> dict:
     eps = [driver.gen_episode(r, j, open_loop=spec["open_loop"], nsteps=r.randint(4, opts.get("max_steps", 10)), endings=("stop",), override_p=0.0, faults=False) for j in range(n_eps)]
     variants = []
     for _ in range(opts.get("variants", 2)):
-        variants.append(dict(mode=r.choice(compiled.MODES), prune=r.random() < 0.5, sizes=r.choice(["auto", "auto", "min", "min+1", "large"]), extra_padding=r.choice([0, 0, 1, 3]),
+        variants.append(dict(mode=r.choice(compiled.MODES), prune=r.random() < 0.5, sizes=r.choice(["auto", "auto", "min", "min", "min+1", "large"]), extra_padding=r.choice([0, 0, 0, 1, 3]),
                              starting_step=r.choice([0, 0, "mid"]), api=r.choice(["rollout_carry", "run_jit", "gym_jit"]), episode=r.randrange(n_eps)))
     for ep in eps:
         ep["until_active"] = True
@@ -76,6 +76,16 @@ def run_plan(plan: dict, replay=None) -> dict:
             res.update(status="precondition_failed", detail=f"schedule itself is invalid (C07): {problems[0]}", decisions=ro.decisions, widths=ro.widths)
             return res
         e = var["episode"]
+        # directed choice: prefer an episode in which a producer overwrites, within one generation, the slot a sibling still reads
+        # (the boundary case the buffer sizing is designed for); the static probe tells where that happens
+        if var["starting_step"] == 0:
+            auto_sizes = {n: (max(v) if len(v) else max(1, int(kw.get("extra_padding", 0)))) for n, v in G._buffer_sizes.items()}
+            for ee in range(len(positions)):
+                _, st_e = compiled.ring_replay(G, raw_np, nodes, positions, episodes=[ee])
+                if st_e["same_generation_read_write_same_slot"] > 0:
+                    e = ee
+                    tot["directed_episode_choices"] = tot.get("directed_episode_choices", 0) + 1
+                    break
         P = G.max_steps + 1
         s0 = 0 if var["starting_step"] == 0 else max(1, P // 2)
         if s0:
@@ -87,6 +97,7 @@ def run_plan(plan: dict, replay=None) -> dict:
         tot["ring_wrap"] += rstats["ring_wrap"]
         tot["negative_seq_read"] += rstats["negative_seq_read"]
         tot["ring_reads"] += rstats["reads"]
+        tot["same_generation_read_write_same_slot"] = tot.get("same_generation_read_write_same_slot", 0) + rstats["same_generation_read_write_same_slot"]
         for p in rp[:3]:
             viol.append(dict(clause="c08-" + p[0], signature="c08-" + p[0], variant=var, detail=[str(x)[:120] for x in p[1:]], sizes=sizes))
         if rp:
@@ -131,7 +142,7 @@ def run_plan(plan: dict, replay=None) -> dict:
             break
     jax.clear_caches()
     res.update(common.summarise(ro, plan, extra_sums=tot))
-    res["dicts"]["probe_counts"].update(ring_wrap=tot["ring_wrap"], negative_seq_read=tot["negative_seq_read"])
+    res["dicts"]["probe_counts"].update(ring_wrap=tot["ring_wrap"], negative_seq_read=tot["negative_seq_read"], same_generation_read_write_same_slot=tot.get("same_generation_read_write_same_slot", 0))
     res["dicts"]["buffer_variants"] = {}
     for var in plan["variants"]:
         k = f"{var['sizes']}/pad{var['extra_padding']}/start{var['starting_step']}"
